@@ -55,7 +55,7 @@ Record mro := mkMro {
   m_ok_json : bool;      (* supercls( *exc.args) constructs, json round-trips and is truthy *)
   m_ok_pickle : bool;    (* supercls( *exc.args) constructs, pickle round-trips and is truthy *)
   m_loaded : largs;      (* the args of the unpickled supercls( *exc.args), relative to exc.args (Python's own pickling) *)
-  m_is_exc : bool        (* the class is a subclass of BaseException (false for a mixin in the MRO) *)
+  m_is_exc : bool        (* issubclass(supercls, BaseException) - false for a mixin in the MRO: skipped *)
 }.
 Definition m_ok (c : coder) (m : mro) : bool := match c with CJson => m_ok_json m | CPickle => m_ok_pickle m end.
 
@@ -108,10 +108,13 @@ Inductive prep :=
 | PWrap (id : nat) (a : list sarg) (c x : prep) (s : bool) (* _UnpickleableExceptionWrapper *)
 | PRepr (id : nat) (a : list sarg) (c x : prep) (s : bool). (* ExceptionRepr *)
 
+(* find_pickleable_exception: classes that are not exceptions (mixins) are skipped (:204-206, repair of finding
+   D10 - the defective variant is in coq/findings/FindingsExcSer.v), the first remaining one that can be rebuilt from
+   the args and round-trips wins *)
 Fixpoint first_ok (c : coder) (l : list mro) (i : nat) : option nat :=
   match l with
   | [] => None
-  | m :: t => if m_ok c m then Some i else first_ok c t (S i)
+  | m :: t => if m_is_exc m && m_ok c m then Some i else first_ok c t (S i)
   end.
 
 Definition mem (x : nat) (l : list nat) : bool := existsb (Nat.eqb x) l.
@@ -247,9 +250,7 @@ Definition load_pickle (g : graph) (p : prep) : outcome :=
       match nth_error g id with
       | Some n =>
         match nth_error (n_mro n) i with
-        | Some m =>
-          if m_is_exc m then OLoaded (LNode id (if i =? 0 then KOrig else KBase i) (i =? 0) (m_loaded m) LNone LNone false)
-          else ONotExc           (* find_pickleable_exception returned an instance of a non-exception mixin *)
+        | Some m => OLoaded (LNode id (if i =? 0 then KOrig else KBase i) (i =? 0) (m_loaded m) LNone LNone false)
         | None => ONotExc
         end
       | None => ONotExc
@@ -451,10 +452,10 @@ Definition class_spec_pickle (n : node) (k : lkind) (named : bool) (a : largs) :
   (n_exc_rt_pickle n = true -> k = KOrig /\ named = true /\ a = n_native n) /\
   (n_exc_rt_pickle n = false -> forall i, first_ok CPickle (n_mro n) 0 = Some i ->
       exists m, nth_error (n_mro n) i = Some m /\ m_ok_pickle m = true /\ m_is_exc m = true /\
-        (forall j' m', j' < i -> nth_error (n_mro n) j' = Some m' -> m_ok_pickle m' = false) /\
+        (forall j' m', j' < i -> nth_error (n_mro n) j' = Some m' -> m_is_exc m' && m_ok_pickle m' = false) /\
         a = m_loaded m /\ (i = 0 -> k = KOrig /\ named = true) /\ (i <> 0 -> k = KBase i)) /\
   (n_exc_rt_pickle n = false -> first_ok CPickle (n_mro n) 0 = None ->
-      (forall m, In m (n_mro n) -> m_ok_pickle m = false) /\ n_wrap_rt_pickle n = true /\
+      (forall m, In m (n_mro n) -> m_is_exc m && m_ok_pickle m = false) /\ n_wrap_rt_pickle n = true /\
       k = KWrap /\ named = true /\ a = LArgs (map (arg_form EPickle) (n_args n))).
 
 (* the two regions in which a store or a load can fail *)
@@ -464,9 +465,7 @@ Definition no_shadow (g : graph) : Prop :=
   forall n, In n g -> n_has_module n = true -> n_resolve n <> RNonExc.
 
 Definition wrappable (g : graph) : Prop := forall n, In n g -> n_wrap_rt_pickle n = true.
-(* every class of an MRO that can be rebuilt and pickled is an exception class (no mixin in front of Exception) *)
-Definition mro_exceptions (g : graph) : Prop :=
-  forall n m, In n g -> In m (n_mro n) -> m_ok_pickle m = true -> m_is_exc m = true.
+
 
 
 (* Boolean form of the statement for one observed outcome (store/load failures are judged by the harness'
